@@ -575,3 +575,109 @@ Proof.
     + destruct (AttSrvProofsC01.error_response_ok 8 err_attribute_not_found sh (co_buf k1) out_size ltac:(lia)) as (r & Er & X1 & X2).
       rewrite Er. eexists _, r. split; [reflexivity|lia].
 Qed.
+
+Lemma att_input_total_gen c st cid pdu n k op (h : option (srv_state * resp)) :
+  wf c -> get_conn st cid = Some k -> 23 <= client_mtu k -> 23 <= n -> rd pdu 0 = Some op -> 1 <= len pdu ->
+  (forall os b, os = N.min n (negotiated_mtu c k) -> b = repeat fill_byte (N.to_nat n) -> 23 <= os -> os <= len b ->
+     (if op =? 1 then Some (st, (b, 0))
+      else if op =? 2 then handle_exchange_mtu c st cid pdu b os
+      else if op =? 4 then do x <- handle_find_information c pdu b os; Some (st, x)
+      else if op =? 6 then do x <- handle_find_by_type_value c st cid pdu b os; Some (st, x)
+      else if op =? 8 then handle_read_by_type c st cid pdu b os
+      else if op =? 10 then handle_read c st cid pdu b os
+      else if op =? 12 then handle_read_blob c st cid pdu b os
+      else if op =? 16 then do x <- handle_read_by_group_type c pdu b os; Some (st, x)
+      else if op =? 14 then handle_read_multiple c st cid pdu b os
+      else if op =? 18 then handle_write_request c st cid pdu b os
+      else if op =? 82 then handle_write_command c st cid pdu b os
+      else if op =? 22 then handle_prepare_write c st cid pdu b os
+      else if op =? 24 then handle_execute_write c st cid pdu b os
+      else if op =? 30 then handle_confirmation c st cid pdu b os
+      else do x <- error_response op err_request_not_supported 0 b os; Some (st, x))
+     = h /\ exists s1 r, h = Some (s1, r) /\ snd r <= len (fst r)) ->
+  att_input c st cid pdu n <> None.
+Proof.
+  intros Hw Hk Hm Hn Hop Hl Hh. unfold att_input. rewrite Hk. cbv zeta.
+  assert (Hmtu : 23 <= max_mtu c).
+  { unfold wf, wf_b in Hw. repeat (apply andb_true_iff in Hw; destruct Hw as [Hw ?]). unfold default_att_mtu in *. lia. }
+  replace (len pdu =? 0) with false by lia.
+  replace (N.min n (negotiated_mtu c k) <? default_att_mtu) with false by (unfold negotiated_mtu, default_att_mtu; lia).
+  rewrite Hop. cbv beta iota.
+  destruct (Hh _ _ eq_refl eq_refl ltac:(unfold negotiated_mtu; lia) ltac:(rewrite len_repeat_N; lia)) as (E & s1 & [b' nn] & -> & L).
+  rewrite E. cbn [fst snd] in L. replace (nn <=? len b') with true by lia. discriminate.
+Qed.
+
+Lemma att_input_total_info c st cid a b0 x y n :
+  wf c -> no_includes c -> all_16bit c = true -> conns_ok st -> (cid < n_conns)%nat -> 23 <= n ->
+  att_input c st cid [4; a; b0; x; y] n <> None.
+Proof.
+  intros Hw Hn Hu Hok Hc Hn23. destruct (ok_get_some st cid Hok Hc) as (k & Hk & Hm).
+  destruct (fi_total c a b0 x y (repeat fill_byte (N.to_nat n)) (N.min n (negotiated_mtu c k)) Hw Hn Hu) as (r & E & L).
+  { assert (Hmtu : 23 <= max_mtu c).
+    { unfold wf, wf_b in Hw. repeat (apply andb_true_iff in Hw; destruct Hw as [Hw ?]). unfold default_att_mtu in *. lia. }
+    unfold negotiated_mtu. lia. }
+  { rewrite len_repeat_N. lia. }
+  apply (att_input_total_gen c st cid [4; a; b0; x; y] n k 4 (Some (st, r)) Hw Hk Hm Hn23 eq_refl); [unfold len; cbn; lia|].
+  intros os b -> -> _ _. cbn [N.eqb Pos.eqb]. rewrite E. split; [reflexivity|]. eauto.
+Qed.
+
+Lemma att_input_total_type c st cid a b0 x y t u n :
+  wf c -> no_includes c -> conns_ok st -> (cid < n_conns)%nat -> 23 <= n ->
+  req_type t = Some u -> u <> U16 internal_128bit_uuid ->
+  att_input c st cid (8 :: a :: b0 :: x :: y :: t) n <> None.
+Proof.
+  intros Hw Hn Hok Hc Hn23 Hty Hne. destruct (ok_get_some st cid Hok Hc) as (k & Hk & Hm).
+  destruct (rbt_total c st cid k a b0 x y t u (repeat fill_byte (N.to_nat n)) (N.min n (negotiated_mtu c k)) Hw Hn Hk Hty Hne) as (s1 & r & E & L).
+  { assert (Hmtu : 23 <= max_mtu c).
+    { unfold wf, wf_b in Hw. repeat (apply andb_true_iff in Hw; destruct Hw as [Hw ?]). unfold default_att_mtu in *. lia. }
+    unfold negotiated_mtu. lia. }
+  { rewrite len_repeat_N. lia. }
+  destruct (rd_prefix5 8 a b0 x y t) as (R0 & _). cbv zeta in R0.
+  apply (att_input_total_gen c st cid (8 :: a :: b0 :: x :: y :: t) n k 8 (Some (s1, r)) Hw Hk Hm Hn23 R0); [unfold len; cbn [length]; lia|].
+  intros os b -> -> _ _. cbn [N.eqb Pos.eqb]. rewrite E. split; [reflexivity|]. eauto.
+Qed.
+
+Lemma c02_step_full c st m o :
+  wf c -> no_includes c -> c02_regular c = true -> conns_ok st -> mon_inv c m ->
+  op_bytes o = true -> no_marker_type o = true -> op_conn o = true ->
+  exists m', c02_step c m o (snd (srv_step c st o)) = (Ok, m') /\ mon_inv c m'.
+Proof.
+  intros Hw Hn Hreg Hok Hm Hb Hr Hc.
+  assert (H16 : all_16bit c = true) by (unfold c02_regular in Hreg; repeat (apply andb_true_iff in Hreg; destruct Hreg as [Hreg ?]); assumption).
+  destruct o as [cid pdu n| | |cid| | |]; try (apply c02_step_regular; auto; cbn [srv_step]; fail).
+  - cbn [c02_step]. destruct (n <? default_att_mtu) eqn:En; [eexists; split; [reflexivity|exact Hm]|].
+    destruct (parse_req pdu) as [[[[op k] lo] hi]|] eqn:Ep; [|eexists; split; [reflexivity|exact Hm]].
+    assert (Hnf : snd (srv_step c st (OpIn cid pdu n)) <> OFault).
+    { cbn [srv_step]. cbn [op_conn] in Hc. apply Nat.ltb_lt in Hc. unfold default_att_mtu in En.
+      destruct (parse_req_inv pdu op k lo hi Ep) as (a & b & x & y & t & -> & _ & _ & Hcase).
+      destruct Hcase as [(-> & _ & ->)|[(-> & _ & ->)|(-> & u & _ & Hty)]].
+      - pose proof (att_input_total_info c st cid a b x y n Hw Hn H16 Hok Hc ltac:(lia)) as X.
+        destruct (att_input c st cid [4; a; b; x; y] n) as [[? ?]|]; [discriminate|congruence].
+      - pose proof (att_input_total_group c st cid a b x y n Hw Hok Hc ltac:(lia)) as X.
+        destruct (att_input c st cid [16; a; b; x; y; 0; 40] n) as [[? ?]|]; [discriminate|congruence].
+      - cbn [no_marker_type] in Hr. rewrite Hty in Hr.
+        assert (Hne : u <> U16 internal_128bit_uuid) by (intros ->; rewrite uuid_eqb_refl in Hr; discriminate Hr).
+        pose proof (att_input_total_type c st cid a b x y t u n Hw Hn Hok Hc ltac:(lia) Hty Hne) as X.
+        destruct (att_input c st cid (8 :: a :: b :: x :: y :: t) n) as [[? ?]|]; [discriminate|congruence]. }
+    pose proof (c02_step_regular c st m (OpIn cid pdu n) Hw Hn Hreg Hm Hb Hr Hnf) as X. cbn [c02_step] in X. rewrite En, Ep in X. exact X.
+  - cbn [c02_step]. eexists. split; [reflexivity|exact Hm].
+  - cbn [c02_step]. eexists. split; [reflexivity|exact Hm].
+  - cbn [c02_step]. eexists. split; [reflexivity|]. apply mon_inv_upd_none; auto.
+  - cbn [c02_step]. eexists. split; [reflexivity|exact Hm].
+  - cbn [c02_step]. eexists. split; [reflexivity|exact Hm].
+  - cbn [c02_step]. eexists. split; [reflexivity|exact Hm].
+Qed.
+
+Theorem c02_monitor_accepts_regular_full c : wf c -> no_includes c -> c02_regular c = true ->
+  forall ops st m pos,
+    conns_ok st -> mon_inv c m -> forallb op_bytes ops = true -> forallb no_marker_type ops = true -> forallb op_conn ops = true ->
+    c02_monitor_from c m pos (srv_run c st ops) = None.
+Proof.
+  intros Hw Hn Hreg. induction ops as [|o t IH]; intros st m pos Hok Hm Hb Hr Hc; [reflexivity|].
+  cbn [forallb] in Hb, Hr, Hc. apply andb_true_iff in Hb. destruct Hb as [Hb1 Hb2]. apply andb_true_iff in Hr. destruct Hr as [Hr1 Hr2].
+  apply andb_true_iff in Hc. destruct Hc as [Hc1 Hc2].
+  destruct (c02_step_full c st m o Hw Hn Hreg Hok Hm Hb1 Hr1 Hc1) as (m' & E & Hm').
+  pose proof (srv_step_ok c st o Hok) as Hok'.
+  cbn [srv_run]. destruct (srv_step c st o) as [st' out]. cbn [fst snd] in *.
+  cbn [c02_monitor_from]. rewrite E. apply IH; auto.
+Qed.
